@@ -54,6 +54,12 @@ func (v *arrayValidator) feed(jsonLexeme lexeme.LexEvent) ([]validator, bool) {
 	case lexeme.ArrayBegin, lexeme.ArrayItemEnd:
 		return nil, false
 
+	case lexeme.LiteralBegin, lexeme.LiteralEnd:
+		// `[...] // {nullable: true}` admits null.
+		if isNullAllowed(v.node_, jsonLexeme) {
+			return nil, jsonLexeme.Type() == lexeme.LiteralEnd
+		}
+
 	case lexeme.ArrayItemBegin:
 		if arrayNode, ok := v.node_.(*schema.ArrayNode); ok {
 			childNode := arrayNode.Child(v.itemsCounter) // can panic
